@@ -715,6 +715,10 @@ def build(desc):
     rng = common.rng_for(desc.get('seed', 0), ID, fam, repr(sorted(desc.items())))
     b = B(rng, fam)
     globals()['_fam_' + fam](b, desc)
+    # a third of the cases set the act-home directory apart from the home directory ([conf] act-home = ah), where the
+    # files of the same names have other contents: the default relativities (home for most arguments, act-home for the
+    # action) then denote different files
+    b.case['split_home'] = (sum(map(ord, repr(sorted(desc.items())))) % 3 == 0)
     return b
 
 
@@ -1050,9 +1054,16 @@ def teardown_worker(ctx):
 
 
 def _home_files():
-    return {'src.txt': HOME_TEXTS['src.txt'], 'in.txt': HOME_TEXTS['in.txt'], 'adir/x.txt': 'x\n',
-            'hprobe': ('symlink', probe.PROBE), 'pyprobe.py': ('symlink', PYPROBE),
-            'lnk.txt': ('symlink', 'src.txt'), 'ldir': ('symlink', 'adir')}
+    fs = {'src.txt': HOME_TEXTS['src.txt'], 'in.txt': HOME_TEXTS['in.txt'], 'adir/x.txt': 'x\n',
+          'hprobe': ('symlink', probe.PROBE), 'pyprobe.py': ('symlink', PYPROBE),
+          'lnk.txt': ('symlink', 'src.txt'), 'ldir': ('symlink', 'adir')}
+    # the act-home directory of the cases with `act-home = ah`: the same names, other contents
+    ah = P.ACT_HOME_DIR
+    fs.update({ah + '/src.txt': P.act_home_variant(HOME_TEXTS['src.txt']),
+               ah + '/in.txt': P.act_home_variant(HOME_TEXTS['in.txt']), ah + '/adir/x.txt': 'X-ACT-HOME\n',
+               ah + '/hprobe': ('symlink', probe.PROBE), ah + '/pyprobe.py': ('symlink', PYPROBE),
+               ah + '/lnk.txt': ('symlink', 'src.txt'), ah + '/ldir': ('symlink', 'adir')})
+    return fs
 
 
 def _read(path):
@@ -1261,6 +1272,10 @@ def _emulation_applies(key, M):
     return False
 
 
+def _dirs(case, d, sds):
+    return P.Dirs(d, sds, os.path.join(d, P.ACT_HOME_DIR) if case.get('split_home') else None)
+
+
 def run_case(desc, ctx):
     from vf.driver import first_line
     ses = ctx.get_session()
@@ -1301,7 +1316,7 @@ def run_case(desc, ctx):
                          % (desc['fam'], actor['k'], ident, r.rc),
                  'detail': dict(base, mechanism='not-executed', observed=r.brief())}]}
         records = probe.read_records(rec_path)
-        M = P.Machine(P.Dirs(d, sds), rr, HOME_TEXTS)
+        M = P.Machine(_dirs(case, d, sds), rr, HOME_TEXTS)
         exp = M.execute(case, act_only=(mode == 'act'))
         stats = {}
         viol = _compare(desc, case, actor, mode, r, rec_path, records, sds, M, exp, ident, ctx.count, stats)
@@ -1311,7 +1326,7 @@ def run_case(desc, ctx):
             for key in EMULATIONS:
                 if not _emulation_applies(key, M):
                     continue
-                M2 = P.Machine(P.Dirs(d, sds), rr, HOME_TEXTS, emulate=(key,))
+                M2 = P.Machine(_dirs(case, d, sds), rr, HOME_TEXTS, emulate=(key,))
                 try:
                     exp2 = M2.execute(case, act_only=(mode == 'act'))
                     v2 = _compare(desc, case, actor, mode, r, rec_path, records, sds, M2, exp2, ident, _noop, {})
